@@ -20,7 +20,7 @@ models (`Concrete.ops`, `Concrete.opsGive`):
 Property theorems only; helper lemmas in `GMGProofs/Lemmas/Concrete16.lean` (abstract operators), `Concrete17.lean`.
 -/
 namespace C09c
-open Cycle Concrete Stencil
+open MGCycle Concrete Stencil
 
 section Ordered
 variable {K : Type} [_root_.Field K] [LinearOrder K] [IsStrictOrderedRing K]
